@@ -770,6 +770,32 @@ def connY (run : ConnRun) (ln : Nat) (line : String) (r : Report) : ConnRun × R
   | _ => (run, r.mdiff "parse" s!"{here}: unparsable Y line")
 
 
+/-- bulk probes (`harness bulk`): `K resend role=… ids=… n=<stored> rm=<M> | <PANIC | ok sends=k> | vacancy=<v>`.
+    A session with `n` stored QoS 1 packets is resumed under the peer's Receive Maximum `M`:
+    no panic, all `n` packets requested again (plus the CONNACK on a server), vacancy = M ∸ n. -/
+def bulkLine (ln : Nat) (line : String) (r : Report) : Report :=
+  let r := { r with calls := r.calls + 1 }
+  match line.splitOn " | " with
+  | [what, res, vac] =>
+    let kv := parseKV (what.replace " " ",")
+    let n := (kvGet kv "n").toNat?.getD 0
+    let m := (kvGet kv "rm").toNat?.getD 0
+    let here := s!"bulk line {ln}"
+    if res = "PANIC" then
+      r.viol "C05 panic@bulk.resend" s!"{here}: resuming a session with {n} stored packets under Receive Maximum {m} panicked ({what})"
+    else
+      let sends := ((res.splitOn "sends=").getD 1 "").toNat?.getD 0
+      let extra := if (kvGet kv "role") = "server" then 1 else 0
+      let r := if sends ≠ n + extra then
+          r.viol "C06 resend_mismatch@bulk.resend" s!"{here}: {n} stored packets, {sends} packets requested for sending ({what})" else r
+      let expect := toString (m - n)
+      let got := ((vac.splitOn "vacancy=").getD 1 "")
+      if got ≠ expect then
+        let r := r.viol "C12 vacancy_mismatch@bulk.resend" s!"{here}: {n} retransmitted exchanges are incomplete under Receive Maximum {m}: vacancy must be {expect}, reported {got} ({what})"
+        r.viol "C05 counter_wrap@bulk.resend" s!"{here}: the outbound exchange counter wrapped: {n} retransmitted exchanges, Receive Maximum {m}, reported vacancy {got} instead of {expect} ({what})"
+      else r
+  | _ => r.mdiff "parse" s!"bulk line {ln}: unparsable `{line.take 80}`"
+
 /-! ### L1 ↔ L2 tie: the harness's packet descriptors are a function of the L1 codec model -/
 
 def descrFields (d : String) : List (String × String) :=
